@@ -161,7 +161,14 @@ class PreprocessorData:
         return self.result_ops, self.labels
 
     def insert_segment(self, next_segment_start: int) -> None:
-        self.labels[f'{wflip_start_label}{self.curr_segment_index}'] = self.curr_address
+        segment_wflip_label = f'{wflip_start_label}{self.curr_segment_index}'
+        if segment_wflip_label in self.labels:
+            macro_resolve_error(
+                self.curr_tree,
+                f'label "{segment_wflip_label}" (declared on {self.labels_code_positions[segment_wflip_label]}) '
+                f'is reserved for the assembler',
+            )
+        self.labels[segment_wflip_label] = self.curr_address
         self.curr_segment_index += 1
 
         self.patch_last_wflip_address()
@@ -181,7 +188,8 @@ class PreprocessorData:
             address = self.curr_address
 
         if label in self.labels:
-            other_position = self.labels_code_positions[label]
+            # the assembler's own labels (the wflip-area start of each segment) have no code position
+            other_position = self.labels_code_positions.get(label, 'the assembler itself (a reserved label)')
             macro_resolve_error(
                 self.curr_tree, f'label declared twice - "{label}" on ' f'{code_position} and {other_position}'
             )
